@@ -335,6 +335,106 @@ func c06LitFieldClass(s *source, e *emitter, rel, goName, typ, field string) []s
 	return out
 }
 
+// c06CallArgSpread is c06CallArgClass for a variadic tail: the class of argument number `arg` of every call of
+// `callee`, followed by "..." when the call spreads it (f(a, opts...)); a call that has no such argument yields
+// "absent" (the options are dropped).
+func c06CallArgSpread(s *source, e *emitter, rel, goName, callee string, arg int) []string {
+	fd := s.findFunc(rel, goName)
+	if fd == nil {
+		e.errors = append(e.errors, fmt.Sprintf("function %s not found in %s", goName, rel))
+		return []string{"MISSING"}
+	}
+	var out []string
+	ast.Inspect(fd.Body, func(n ast.Node) bool {
+		if c, ok := n.(*ast.CallExpr); ok {
+			name := ""
+			switch f := c.Fun.(type) {
+			case *ast.SelectorExpr:
+				name = f.Sel.Name
+			case *ast.Ident:
+				name = f.Name
+			}
+			if name == callee {
+				switch {
+				case arg >= len(c.Args):
+					out = append(out, "absent")
+				case c.Ellipsis.IsValid() && arg == len(c.Args)-1:
+					out = append(out, c06Classify(s, rel, fd, c.Args[arg])+"...")
+				default:
+					out = append(out, c06Classify(s, rel, fd, c.Args[arg]))
+				}
+			}
+		}
+		return true
+	})
+	return out
+}
+
+// c06AllocClass classifies how a function obtains the object it assigns to the local `name`: "fresh" for
+// new(T) / &T{…} (an object nobody else holds), otherwise "other:<source>" (a pool, a cache, a parameter …).
+// Only plain assignments `name = …` / `name := …` with one value are looked at; the `if c, ok := m[k]` lookups
+// (two results) are not allocations.
+func c06AllocClass(s *source, e *emitter, rel, goName, name string) []string {
+	fd := s.findFunc(rel, goName)
+	if fd == nil {
+		e.errors = append(e.errors, fmt.Sprintf("function %s not found in %s", goName, rel))
+		return []string{"MISSING"}
+	}
+	var out []string
+	ast.Inspect(fd.Body, func(n ast.Node) bool {
+		as, ok := n.(*ast.AssignStmt)
+		if !ok || len(as.Lhs) != 1 || len(as.Rhs) != 1 {
+			return true
+		}
+		if id, ok := as.Lhs[0].(*ast.Ident); !ok || id.Name != name {
+			return true
+		}
+		switch r := as.Rhs[0].(type) {
+		case *ast.CallExpr:
+			if f, ok := r.Fun.(*ast.Ident); ok && f.Name == "new" && len(r.Args) == 1 {
+				out = append(out, "fresh")
+				return true
+			}
+		case *ast.UnaryExpr:
+			if _, ok := r.X.(*ast.CompositeLit); ok && r.Op == token.AND {
+				out = append(out, "fresh")
+				return true
+			}
+		}
+		out = append(out, "other:"+s.src(as.Rhs[0]))
+		return true
+	})
+	return out
+}
+
+// c06ArgUses lists, over ALL functions of a file, the calls that receive the identifier `name` as an argument
+// (`<func>:<callee>`): where an object is handed to someone else (a pool's Put, a channel send wrapper, …).
+func c06ArgUses(s *source, e *emitter, rel, name string) []string {
+	f := s.file(rel)
+	if f == nil {
+		e.errors = append(e.errors, "file not found: "+rel)
+		return []string{"MISSING"}
+	}
+	var out []string
+	for _, d := range f.Decls {
+		fd, ok := d.(*ast.FuncDecl)
+		if !ok || fd.Body == nil {
+			continue
+		}
+		ast.Inspect(fd.Body, func(n ast.Node) bool {
+			if c, ok := n.(*ast.CallExpr); ok {
+				for _, a := range c.Args {
+					if id, ok := a.(*ast.Ident); ok && id.Name == name {
+						out = append(out, fd.Name.Name+":"+s.src(c.Fun))
+					}
+				}
+			}
+			return true
+		})
+	}
+	return out
+}
+
 func c06Pairs(e *emitter, lean, doc string, keys []string, vals map[string][]string) {
 	sort.Strings(keys)
 	var rows []string
@@ -661,6 +761,24 @@ func init() {
 		c06Facts(s, e, monc, "MustNewModel", "moncMustNewModelFacts", "NewModel")
 		c06Facts(s, e, monc, "MustNewNodeModel", "moncMustNewNodeModelFacts", "NewNodeModel")
 		c06Facts(s, e, flight, "NewSingleFlight", "newSingleFlightFacts")
+		// round 5: the call OBJECT of a flight (how createCall obtains it, who else gets hold of it) and the
+		// forwarding of the caller's options at every hop constructor -> cache.New / cache.NewNode -> newOptions
+		e.stringList("createCallAlloc", "how flightGroup.createCall obtains the call object it registers", c06AllocClass(s, e, flight, "flightGroup.createCall", "c"))
+		e.stringList("callObjectHandedTo", "calls in "+flight+" that receive the call object `c` as an argument", c06ArgUses(s, e, flight, "c"))
+		c06Pairs(e, "optsForwarding", "the options argument at every constructor hop (class of the value, `...` = spread)",
+			[]string{"cache.New", "cache.NewNode", "sqlc.NewConn", "sqlc.NewNodeConn", "monc.NewModel", "monc.NewNodeModel", "monc.MustNewModel", "monc.MustNewNodeModel"},
+			map[string][]string{
+				"cache.New":               c06CallArgSpread(s, e, cluster, "New", "NewNode", 4),
+				"cache.NewNode":           c06CallArgSpread(s, e, node, "NewNode", "newOptions", 0),
+				"sqlc.NewConn":            c06CallArgSpread(s, e, sqlc, "NewConn", "New", 4),
+				"sqlc.NewNodeConn":        c06CallArgSpread(s, e, sqlc, "NewNodeConn", "NewNode", 4),
+				"monc.NewModel":           c06CallArgSpread(s, e, monc, "NewModel", "New", 4),
+				"monc.NewNodeModel":       c06CallArgSpread(s, e, monc, "NewNodeModel", "NewNode", 4),
+				"monc.MustNewModel":       c06CallArgSpread(s, e, monc, "MustNewModel", "NewModel", 4),
+				"monc.MustNewNodeModel":   c06CallArgSpread(s, e, monc, "MustNewNodeModel", "NewNodeModel", 4),
+			})
+		e.stringList("newNodeOptionFields", "where the expiries of the cacheNode literal in NewNode come from",
+			append(c06LitFieldClass(s, e, node, "NewNode", "cacheNode", "expiry"), c06LitFieldClass(s, e, node, "NewNode", "cacheNode", "notFoundExpiry")...))
 		c06Facts(s, e, node, "cacheNode.String", "nodeStringFacts")
 		// round 4: decision-making conditions on the path, TRANSLATED to Lean functions (operators, constants, operands)
 		cst := map[string]string{}
